@@ -289,15 +289,32 @@ def c05(run: Any) -> list[Finding]:
 # C08
 
 
+def slot_environment(slot: str, ip_prefix: str, default_port: str) -> dict[str, str]:
+    """Reference for the documented meaning of a runtime slot: '' serial in the host process, 'N' container cN, 'gateway/N' remote host behind a forwarded port."""
+    if "/" in slot:
+        gateway, host = slot.split("/")
+        return {"nets_gateway": gateway, "nets_host": host, "nets_spawner": "remote", "nets_shell_host": gateway, "nets_shell_port": "22" + host}
+    if slot == "":
+        return {"nets_gateway": "", "nets_host": "", "nets_spawner": "process", "nets_shell_host": "localhost", "nets_shell_port": default_port}
+    return {"nets_gateway": "", "nets_host": "c" + slot, "nets_spawner": "lxc", "nets_shell_host": ip_prefix + "." + slot, "nets_shell_port": default_port}
+
+
 def c08(run: Any) -> list[Finding]:
     out: list[Finding] = []
     sc = run.scenario.name
     graph = run.graph
     previous = getattr(run, "previous_results", [])
+    slots = run.scenario.params.get("slots")
+    slot_of = dict(zip(run.scenario.nets.split(" "), slots.split(" "))) if slots is not None else {}
     for ev in _starts(run):
         node, wid = ev["node"], ev["worker"]
         worker = graph.workers[wid]
         p = ev["params"]
+        if wid in slot_of:
+            want = slot_environment(slot_of[wid], str(p.get("nets_ip_prefix")), "22")
+            for k, v in want.items():
+                if str(p.get(k)) != v:
+                    out.append((f"C08 {sc} slot environment {k}", f"{wid} was given the slot {slot_of[wid]!r} but executed {_short(ev['bridged'])} with {k}={p.get(k)!r} instead of {v!r}", {}))
         if p.get("nets") != wid or not (p["name"].endswith("." + wid) or ("." + wid + ".") in p["name"]):
             out.append((f"C08 {sc} foreign worker {_short(ev['bridged'])}", f"{wid} executed {ev['shortname']} which was parsed for nets={p.get('nets')}", {}))
         for k, v in worker.params.items():
